@@ -128,6 +128,8 @@ type FnGen struct {
 	monitors   []*Monitor
 	failed     []string
 	quantIdx   bool
+	// free-variable bindings of a closure about to be inlined
+	pendingBindings []*Term
 }
 
 func (fg *FnGen) note(s string) { fg.notes[s] = true }
@@ -199,6 +201,12 @@ func (fg *FnGen) addObl(kind, label string, guard, goal *Term, pos token.Pos, sr
 // safety obligation followed by assumption (assert-then-assume)
 func (fg *FnGen) safety(what string, guard, goal *Term, pos token.Pos) {
 	if Implies(guard, goal) == True {
+		return
+	}
+	if fg.ct != nil && fg.ct.Options["nosafety"] != "" {
+		// panic-freedom of this function is not part of the claim: run-time checks are assumed to pass
+		fg.g.useTrusted("run-time safety conditions (nil, bounds, type assertions) of " + fg.name + " are assumed, not checked (option nosafety)")
+		fg.assumeIf(guard, goal)
 		return
 	}
 	k := fg.ordinal("safe:" + what)
@@ -281,11 +289,16 @@ func (fg *FnGen) ghostInit(name, sort string) *Term {
 		return False
 	}
 	for _, m := range fg.monitors {
-		if "ghost:"+m.Ghost == name && m.Init != nil {
-			env := &Env{fg: fg, vars: map[string]CVal{}}
-			v, err := env.eval(m.Init)
-			if err == nil {
-				return v.T
+		for _, gd := range m.Ghosts {
+			if "ghost:"+gd.Name == name && gd.Init != nil {
+				env := &Env{fg: fg, vars: map[string]CVal{}}
+				v, err := env.eval(gd.Init)
+				if err == nil {
+					if v.IsNil {
+						return nilOfSort(sort)
+					}
+					return v.T
+				}
 			}
 		}
 	}
